@@ -3,7 +3,9 @@ package main
 import (
 	"bytes"
 	"context"
+	"encoding/json"
 	"fmt"
+	"os"
 	"reflect"
 	"runtime"
 	"sort"
@@ -75,8 +77,20 @@ func (c *deadlineCtx) fire() {
 type action struct {
 	Op       string `json:"op"` // arrive | arrive-held | resume | cancel | release | settle
 	I        int    `json:"i"`  // caller index (arrive, arrive-held, resume, cancel) or download index (release)
-	K        int    `json:"k,omitempty"`
+	K        int    `json:"-"`
 	NoSettle bool   `json:"no_settle,omitempty"`
+}
+
+// MarshalJSON: "k" (index of the yield point, from 0) is shown for arrive-held only.
+func (a action) MarshalJSON() ([]byte, error) {
+	type plain action
+	if a.Op != "arrive-held" {
+		return json.Marshal(plain(a))
+	}
+	return json.Marshal(struct {
+		plain
+		K int `json:"k"`
+	}{plain(a), a.K})
 }
 
 type phaseSpec struct {
@@ -109,12 +123,12 @@ func (p *phaseSpec) finish() {
 // ---- what was recorded --------------------------------------------------------------------------------------------------
 
 type callRec struct {
-	ID          int    `json:"caller"`
-	Kind        string `json:"kind"`
-	Tok         tok    `json:"token"`
-	CallSeq     int64  `json:"call"`
-	RetSeq      int64  `json:"ret"`
-	CancelSeq   int64  `json:"cancel,omitempty"` // stamp taken just before cancel() (0: never cancelled by the schedule)
+	ID        int    `json:"caller"`
+	Kind      string `json:"kind"`
+	Tok       tok    `json:"token"`
+	CallSeq   int64  `json:"call"`
+	RetSeq    int64  `json:"ret"`
+	CancelSeq int64  `json:"cancel,omitempty"` // stamp taken just before cancel() (0: never cancelled by the schedule)
 	// CancelDoneSeq: stamp taken after cancel() returned. Ending a context closes its Done channel and makes every
 	// goroutine waiting on it (or on a context derived from it) runnable before cancel() returns.
 	CancelDoneSeq int64  `json:"cancel_returned,omitempty"`
@@ -128,15 +142,15 @@ type callRec struct {
 	// blocked; call/ret/ok are not available.
 	NeverReturned bool `json:"never_returned,omitempty"`
 	// held at a yield point by the schedule (arrive-held)
-	HoldK     *int   `json:"hold_at_yield_point,omitempty"`
-	HeldAt    string `json:"held_at,omitempty"`  // name of the point it was held at ("" = it never got there)
-	HeldSeq   int64  `json:"held,omitempty"`     // stamp taken when it reached the point
-	ResumeSeq int64  `json:"resumed,omitempty"` // stamp taken when the schedule let it continue
-	ByDeadline  bool   `json:"ctx_ends_by_deadline,omitempty"`
-	OK          bool   `json:"ok"`
-	Err         string `json:"err,omitempty"`
-	PayloadOK   bool   `json:"-"`
-	Launched    bool   `json:"launched"`
+	HoldK      *int   `json:"hold_at_yield_point,omitempty"`
+	HeldAt     string `json:"held_at,omitempty"` // name of the point it was held at ("" = it never got there)
+	HeldSeq    int64  `json:"held,omitempty"`    // stamp taken when it reached the point
+	ResumeSeq  int64  `json:"resumed,omitempty"` // stamp taken when the schedule let it continue
+	ByDeadline bool   `json:"ctx_ends_by_deadline,omitempty"`
+	OK         bool   `json:"ok"`
+	Err        string `json:"err,omitempty"`
+	PayloadOK  bool   `json:"-"`
+	Launched   bool   `json:"launched"`
 	// ParkedSeq: stamp of the first quiescent snapshot that saw this caller parked in keysFromRemote (waiting for a
 	// download - its own or one it joined)
 	ParkedSeq int64 `json:"parked_waiting_for_a_download_at,omitempty"`
@@ -149,7 +163,7 @@ type callRec struct {
 	returned  atomic.Bool
 	parked    bool // at the last settle
 	wasParked bool // parked at the last settle, but a gate was opened since
-	topKFR    bool // at the last dump: blocked with keysFromRemote on top of its stack
+	topKFR    bool // at the last dump: blocked on a channel inside the library, waiting for a download (today: keysFromRemote's select)
 	held      bool // at the last dump: blocked at its yield point
 	stuck     bool // at the last dump: blocked in keysFromRemote / at the endpoint although its context has ended
 
@@ -176,6 +190,11 @@ type phaseRec struct {
 	Overlap  string `json:"downloads_in_flight_together,omitempty"`
 	Watchdog bool   `json:"watchdog,omitempty"`
 	Frozen   string `json:"frozen,omitempty"` // nothing could move, in a state the harness does not know (inconclusive)
+	// EndAllSeq: stamp taken before the harness ended every caller's context at the end of the phase; a call that
+	// returned later did not necessarily have a live context any more
+	EndAllSeq int64 `json:"all_contexts_ended_from"`
+	// LeftBehind: goroutines of this phase stay blocked for good (they are ignored by later snapshots)
+	LeftBehind string `json:"left_behind,omitempty"`
 }
 
 type roundRec struct {
@@ -205,6 +224,8 @@ var allAlgs = []jose.SignatureAlgorithm{jose.RS256, jose.RS384, jose.RS512, jose
 // *states* (nothing of the process can move) are recognised on the snapshots within milliseconds (settle: frozen); the
 // watchdog is only reached by a round that keeps running without getting anywhere.
 const watchdog = 20 * time.Second
+
+var debugSettle = os.Getenv("C13_DEBUG_SETTLE") != ""
 
 const (
 	confirmSnapshots = 5                    // consecutive snapshots that must show a caller ignoring its own cancellation
@@ -318,7 +339,8 @@ type settleResult struct {
 	// else (gInfo.pureWait) - no timer, no runnable goroutine, nothing the harness is still going to do can wake any of
 	// them once every context has ended and every gate is open
 	pure  bool
-	where string // frozen: where the goroutines of the round are
+	where string  // frozen: where the goroutines of the round are
+	extra []int64 // frozen: the goroutines of the round that are not callers
 }
 
 // settle polls goroutine dumps until the phase is quiescent: every launched caller has returned, or is parked in
@@ -345,7 +367,7 @@ func (rx *roundExec) settle(ph *phaseRec) settleResult {
 		// Pacing only (no verdict depends on it): a dump is expensive, and quiescence is impossible - short of a deadlock -
 		// while some caller is still out and nothing waits at a gate, so give the callers a moment before dumping.
 		pending := 0
-		for spin := 0; spin < 400; spin++ {
+		for spin := 0; spin < 400 && frozen == 0 && confirm == 0; spin++ {
 			pending = 0
 			for _, c := range ph.Calls {
 				if c.Launched && !c.returned.Load() && !c.heldNow() && c.IgnoredCancelSeq == 0 {
@@ -369,6 +391,7 @@ func (rx *roundExec) settle(ph *phaseRec) settleResult {
 		movable := 0 // goroutines of the process, other than this one, that can continue by themselves
 		impure := 0  // ... or that wait in a select of the library's (which may hold a timer)
 		var where []string
+		var extra []int64
 		for id, g := range snap.gs {
 			if id == rx.self {
 				continue
@@ -382,6 +405,7 @@ func (rx *roundExec) settle(ph *phaseRec) settleResult {
 			if rx.base[id] || rx.gids[id] {
 				continue
 			}
+			extra = append(extra, id)
 			switch {
 			case g.inLib || g.atGate:
 				res.spawned++
@@ -405,20 +429,23 @@ func (rx *roundExec) settle(ph *phaseRec) settleResult {
 			}
 			g := snap.gs[c.gid]
 			ended := c.CancelDoneSeq != 0 && c.CancelDoneSeq < snap.seq
+			// waiting: blocked on a channel inside the library (in today's library: the select of keysFromRemote; a
+			// refactored one may wait in a helper - the harness does not care where)
+			waiting := g != nil && g.blocked() && g.inLib && !g.atGate && !g.atSched
 			switch {
 			case g == nil:
 				res.quiescent = false // finished between flag read and dump; will be seen as returned next time
-			case g.blocked() && g.atSched:
+			case g.blocked() && g.atSched && !c.resumed:
 				c.held = true
 				res.held++
-			case g.blocked() && g.topKFR && c.CancelSeq == 0 && c.CancelDoneSeq == 0:
+			case waiting && c.CancelSeq == 0 && c.CancelDoneSeq == 0:
 				c.parked = true
 				c.topKFR = true
 				parkedKFR++
 			case g.blocked() && g.atGate && c.CancelSeq == 0 && c.CancelDoneSeq == 0:
 				c.parked = true // a library that downloads on the caller's own goroutine
 				callerAtGate++
-			case g.blocked() && (g.topKFR || g.atGate) && ended:
+			case (waiting || g.blocked() && g.atGate) && ended:
 				c.stuck = true
 				res.stuck++
 				if g.atGate {
@@ -457,9 +484,11 @@ func (rx *roundExec) settle(ph *phaseRec) settleResult {
 				for _, c := range ph.Calls {
 					if c.stuck && c.IgnoredCancelSeq == 0 {
 						c.IgnoredCancelSeq = snap.seq
-						c.IgnoredWhere = "keysFromRemote"
-						if g := snap.gs[c.gid]; g != nil && g.atGate {
-							c.IgnoredWhere = "the JWKS request"
+						if g := snap.gs[c.gid]; g != nil {
+							c.IgnoredWhere = shortFn(g.libTop)
+							if g.atGate {
+								c.IgnoredWhere = "the JWKS request it sent on its own goroutine"
+							}
 						}
 					}
 				}
@@ -493,8 +522,19 @@ func (rx *roundExec) settle(ph *phaseRec) settleResult {
 		} else {
 			frozen = 0
 		}
+		if debugSettle {
+			fmt.Printf("settle iter=%d quiescent=%v movable=%d impure=%d frozen=%d where=%v waiting=%d t=%v\n", iter, res.quiescent, movable, impure, frozen, where, rx.srv.Waiting(), time.Since(deadline.Add(-watchdog)))
+			if movable > 0 {
+				for id, g := range snap.gs {
+					if id != rx.self && !g.stable() {
+						fmt.Printf("   movable: g%d [%s] lib=%s createdBy=%s\n", id, g.state, g.libTop, g.createdBy)
+					}
+				}
+			}
+		}
 		if frozen >= frozenSnapshots {
 			res.frozen = true
+			res.extra = extra
 			res.pure = impure == 0
 			sort.Strings(where)
 			if len(where) > 6 {
@@ -521,6 +561,13 @@ func (rx *roundExec) settle(ph *phaseRec) settleResult {
 			time.Sleep(time.Millisecond)
 		}
 	}
+}
+
+func shortFn(fn string) string {
+	if i := strings.LastIndex(fn, "/"); i >= 0 {
+		return fn[i+1:]
+	}
+	return fn
 }
 
 func (rx *roundExec) cancelPoint(ph *phaseRec, c *callRec) string {
@@ -660,6 +707,7 @@ func (rx *roundExec) runPhase(ps phaseSpec) (*phaseRec, bool) {
 	}
 	// end every context (this frees whoever is still parked after a deadlock / overlap witness), then wait until every
 	// caller has returned - or is seen, state-based, not to react to the end of its own context
+	ph.EndAllSeq = mon.Seq()
 	for _, c := range ph.Calls {
 		endCtx(c)
 	}
@@ -680,6 +728,15 @@ func (rx *roundExec) runPhase(ps phaseSpec) (*phaseRec, bool) {
 			if c.Launched && !c.returned.Load() {
 				n++
 			}
+		}
+		ph.LeftBehind = res.where
+		for _, id := range res.extra {
+			rx.base[id] = true
+		}
+		if n == 0 {
+			// every call has returned; a goroutine the key set started is blocked for good. What that does to later
+			// verifications is for the next phase to show.
+			break
 		}
 		ph.Deadlock = fmt.Sprintf("at the end of the phase (all gates open, every caller's context ended): %d calls are still blocked inside VerifySignature and every other goroutine of the process waits for another goroutine as well (no timer, no select of the library's): nothing can wake them [%s]", n, res.where)
 	case stuckEarly != nil:
